@@ -323,6 +323,16 @@ class Hist:
                                 ctx.fail(self.suite, 'secret MPI octets appear in the protected export', dict(case, packet=i))
                                 ok = False
                 if all(prot) and current_pw is not None:
+                    # the RFC transcription (Spec/) run on the S2K parameters the implementation chose
+                    for i, pk in enumerate(pkts(key)):
+                        s = pk._key.keymaterial.s2k
+                        if int(s.specifier) not in (0, 1, 3) or s.usage not in (254, 255):
+                            continue
+                        want = self.d.call('rfcpart', hn(s.usage), hn(int(s.encalg)), hn(int(s.specifier)), hn(int(s.halg)), hx(bytes(s.salt)),
+                                           hn(s._count), hx(bytes(s.iv)), hx(pw_octets(current_pw)), ','.join(hn(v) for v in orig[i]))
+                        if want != hx(secret_part(pk)):
+                            ctx.fail(self.suite, 'exported secret part is not the RFC 4880 5.5.3 layout (Spec function)', dict(case, packet=i))
+                            ok = False
                     r = self.d.call('readkey', hx(extra), hx(pw_octets(current_pw)))
                     got = parse_read(r)
                     rec = [p['mpis'] if p['kind'] == 'P' and p['res'] == 'OK' else None for p in got]
